@@ -330,6 +330,18 @@ def run(ctx):
             stats["error_injections"] += 1
             for sig, what in judge(ctx, res, old, 40, False, sigs):
                 v.violation("C19:" + sig, "%s (EIO injected into %s)" % (what, call), {"events": res["events"], "dump": res["dump"]})
+    # (v) concurrency on one key: one writer (overwrites, then save/delete in turn) beside four loaders, in one process. A search,
+    # not a proof: the schedules are the runtime's; it can only ever report a Load that saw a mixture, a prefix or an error.
+    d = os.path.join(ctx.work, "fsrace")
+    shutil.rmtree(d, ignore_errors=True)
+    os.makedirs(d)
+    rc, out = helper(ctx, "race", d, "1002a", 400 if ctx.quick() else 6000, timeout=120)
+    shutil.rmtree(d, ignore_errors=True)
+    if out and out[0].startswith("race ok"):
+        stats["concurrent_ops"] = sum(int(x.split("=")[1]) for x in out[0].split()[2:])
+    else:
+        v.violation("C19:concurrent-load", "beside a concurrent Save/Delete of the same key: %s" % (" ".join(out[:1])[9:] or "the helper crashed (rc %d)" % rc),
+                    {"helper": ["fshelper", "race", "<dir>", "1002a", "400"], "out": out[:3]})
     ev = stats["sequence_checks"] + stats["kills"] + stats["fsize_cuts"] + stats["error_injections"]
     cov = C.proof_coverage(ctx, {
         "evaluations": ev, "distinct_nontrivial": len(distinct),
